@@ -290,6 +290,7 @@ def run(ctx):
                       (tampered or not log[i].get('ok', True) or mex == r['executed']))
                 ctx.corr_case('bookkeeping', ok, case={'history': log[:i + 1]}, model={'recorded': mrec, 'executed': m['executed']},
                               impl=r)
+    purge_preview_probe(ctx)
     # ---- fixed witness of the Lean counterexample C08_cex_mark_then_install ---------------------
     evorig.fresh_databases()
     evorig.clear_evolutions()
@@ -316,6 +317,52 @@ def run(ctx):
     if mark_witness is not None:
         ctx.fail(F_MARK, 'mark-evolution-applied on an app that was never evolved, then installing it, records the '
                  'label twice', mark_witness)
+
+
+def purge_preview_probe(ctx):
+    """runs that do not complete leave the recorded evolutions alone - also those of an app that is no longer
+    installed: a stale app (signature entry, table, recorded evolutions) is there, and a purge is only PREVIEWED
+    (`evolve --purge` without --execute, Evolver.get_evolution_required/diff_evolutions with purge tasks queued)"""
+    from django.db import connection
+    from django_evolution.evolve import Evolver
+    from django_evolution.models import Evolution, Version
+    from django_evolution.signature import AppSignature, ModelSignature
+    evorig.fresh_databases()
+    evorig.clear_evolutions()
+    w = World(False)
+    w.n['vapp'] = 1
+    w.install()
+    run_step(w, None, False)
+    v = Version.objects.current_version()
+    s = v.signature
+    a = AppSignature(app_id='yapp')
+    a.add_model_sig(ModelSignature(model_name='Yo', table_name='yapp_yo'))
+    s.add_app_sig(a)
+    v.signature = s
+    v.save()
+    with connection.cursor() as cur:
+        cur.execute('CREATE TABLE "yapp_yo" ("id" integer NOT NULL PRIMARY KEY AUTOINCREMENT)')
+    Evolution.objects.bulk_create([Evolution(version=v, app_label='yapp', label='y1'),
+                                   Evolution(version=v, app_label='yapp', label='y2')])
+    rows = lambda: sorted(Evolution.objects.values_list('app_label', 'label', 'version_id'))
+    before = rows()
+    steps = []
+    r = evorig.run_command(purge=True)                       # preview: no --execute
+    steps.append('evolve --purge (no --execute): %s' % r[0])
+    mid = rows()
+    evorig._hygiene()
+    ev = Evolver()
+    ev.queue_evolve_all_apps()
+    ev.queue_purge_old_apps()
+    ev.get_evolution_required()
+    ev.diff_evolutions()
+    steps.append('Evolver with purge tasks queued: get_evolution_required(), diff_evolutions()')
+    after = rows()
+    ctx.count('purge_preview_probe')
+    ctx.case({'history': steps}, nontrivial=True, sample_cap=1)
+    if mid != before or after != before:
+        ctx.fail(None, 'a purge that was only previewed changed the recorded evolutions: %s -> %s'
+                 % (before, after if after != before else mid), {'history': steps, 'before': before, 'after': after})
 
 
 def replay(ctx, obj):
